@@ -604,7 +604,10 @@ fn c19_case(doc: &SDoc, mt: &MsgType, e: &Entry, c: &FaultCase) -> PResult {
     }
     // memory kept once per distinct input (not per repetition) is judged over the whole run;
     // inputs of the known list-elem-leak class really do leak and stay out of the sum
-    if !(c.sched == Sched::Sync && (has_heap_list(&f.wire) || doc.shape_has_heap_list(&mt.shape))) {
+    // (a truncation cannot conjure list elements that the value does not have; other faults can
+    // re-interpret bytes, so there the schema decides)
+    let list_leak_class = c.sched == Sched::Sync && (has_heap_list(&f.wire) || (!matches!(c.fault, Fault::Truncate(_)) && doc.shape_has_heap_list(&mt.shape)));
+    if !list_leak_class {
         LEAK_ACC.with(|a| a.borrow_mut().add(growth[0], &format!("{} {} [{}]", mt.rust_name, tag, f.described)));
     }
     let leaked = growth[1] > 0 && growth[1] == growth[2];
@@ -703,6 +706,9 @@ pub fn c19(ctx: &GCtx) -> i32 {
     }
     // memory kept once per distinct rejected input (see LeakAcc); judged before the side stream
     // of the known finding runs, which leaks on purpose
+    if std::env::var("VERIF_LEAK_DEBUG").is_ok() {
+        LEAK_ACC.with(|a| eprintln!("LEAKACC {:?}", a.borrow()));
+    }
     if let Some(msg) = LEAK_ACC.with(|a| a.borrow().verdict()) {
         let fl = Fail::new("leak-accumulating", msg);
         if !ctx.findings.is_open("C19", &fl.key) {
